@@ -93,4 +93,45 @@ def setMaskPacked (l : List α) (mask : List Int) (d : List α) : List α := set
 def ifelse (choice : List Int) (l other : List α) : List α :=
   (List.zip choice (List.zip l other)).map (fun p => if p.1 != 0 then p.2.1 else p.2.2)
 
+
+/-! ## nested lists (FixedArray2D as `nested[j][i]`, FixedMatrix / FixedVArray as `nested[i][j]`) -/
+
+/-- `L[o][i] = x` -/
+def set2 (L : List (List α)) (o i : Nat) (x : α) : List (List α) := L.set o ((L.getD o []).set i x)
+
+/-- `for b, o in enumerate(outer): for a, i in enumerate(inner): L[o][i] = val b a` (outer loop first) -/
+def assign2D (L : List (List α)) (outer inner : List Nat) (val : Nat → Nat → α) : List (List α) :=
+  (List.range outer.length).foldl (fun L b =>
+    (List.range inner.length).foldl (fun L a => set2 L (outer.getD b 0) (inner.getD a 0) (val b a)) L) L
+
+/-- the same assignments with the INNER index list in the outer loop (the order `setitem_vector` of FixedArray2D uses):
+    `for a, i in enumerate(inner): for b, o in enumerate(outer): L[o][i] = val b a` -/
+def assign2DInnerFirst (L : List (List α)) (outer inner : List Nat) (val : Nat → Nat → α) : List (List α) :=
+  (List.range inner.length).foldl (fun L a =>
+    (List.range outer.length).foldl (fun L b => set2 L (outer.getD b 0) (inner.getD a 0) (val b a)) L) L
+
+/-- `for o in range(no): for i in range(ni): if M[o][i]: L[o][i] = val o i` -/
+def assignMask2D (L : List (List α)) (M : List (List Int)) (no ni : Nat) (val : Nat → Nat → α) : List (List α) :=
+  (List.range no).foldl (fun L o =>
+    (List.range ni).foldl (fun L i => if ((M.getD o []).getD i 0) != 0 then set2 L o i (val o i) else L) L) L
+
+
+/-! ## in-place modification of selected items (FixedVArray sizes) -/
+
+/-- `L[p] = f(L[p])` (nothing when `p` is out of range) -/
+def modifyAt (L : List α) (p : Nat) (f : α → α) : List α :=
+  match L[p]? with
+  | some r => L.set p (f r)
+  | none => L
+
+/-- `for p in pos: L[p] = f(L[p])` -/
+def modifyEach (L : List α) (pos : List Nat) (f : α → α) : List α := pos.foldl (fun L p => modifyAt L p f) L
+
+/-- `for p, k in zip(pos, ks): L[p] = f(k, L[p])` -/
+def modifyZip {β : Type} (L : List α) (pos : List Nat) (ks : List β) (f : β → α → α) : List α :=
+  (pos.zip ks).foldl (fun L q => modifyAt L q.1 (f q.2)) L
+
+/-- `del row[k:]; row.extend([0] * (k - len(row)))` — what `va.size[i] = k` does to a row -/
+def resize (row : List Int) (k : Nat) : List Int := (row ++ List.replicate (k - row.length) 0).take k
+
 end ImathVerif.PyList
